@@ -180,7 +180,7 @@ Print Assumptions C14_ttl_refines_refuted.
    order of the bus included); the ..._history forms say so explicitly with Hub_wf.run.  The hub model
    has no time-to-live (that part of the property is the store-level model above).
    From here on the names step / run / init / op are those of model/Hub.v. *)
-From Verif Require Import model.Hub proofs.Hub_basics proofs.Hub_wf proofs.Hub_easy proofs.Hub_transient.
+From Verif Require Import model.Hub proofs.Hub_basics proofs.Hub_wf proofs.Hub_easy proofs.Hub_transient_frame proofs.Hub_transient.
 Local Open Scope N_scope.
 
 (* T3. Setting the value a key already has writes nothing and leaves the state literally unchanged. *)
@@ -237,8 +237,7 @@ Proof. exact api_transient_refused. Qed.
 Theorem C14H_backend_request_no_room : forall h k q, room_of h k = None -> room_request h k q = (h, []).
 Proof. exact room_request_no_room. Qed.
 
-(* T1 (partial: the part about a change of the data; the frame - nothing else writes transient messages - is in
-   proofs/Hub_transient_frame.v as far as it was proved).  A change of room k's data writes exactly one copy of the
+(* T1 (the part about one change of the data; the history form with the frame follows below).  A change of room k's data writes exactly one copy of the
    one notice per connected listener, the listeners being the non-virtual members of the room at that moment. *)
 Theorem C14H_listeners_are_members_partial : forall h k r del key val,
   match update_notice r del key val with
@@ -265,6 +264,28 @@ Theorem C14H_op_recipients_history_partial : forall limits gated ops c sid s k k
   exists r sid' s', room_of h k = Some r /\ In sid' (r_members r) /\ get_sess h sid' = Some s' /\
                     s_room s' = Some k /\ is_virtual (s_kind s') = false /\ s_conn s' = Some c'.
 Proof. exact history_transient_op_recipients. Qed.
+
+(* T1 for every history (with the frame theorem of proofs/Hub_transient_frame.v).  After every history of operations
+   (bus not assumed empty, deliveries in any order), whatever operation comes next - except the hello that resumes a
+   session, which flushes the queue of the time the session was away, and a join, which writes the initial data - a
+   transient message is written only to the connection of a non-virtual session that is at that moment a member of
+   the room whose data changes and whose own room is that room. *)
+Theorem C14H_written_only_to_members : forall limits gated ops o c' t,
+  let h := Hub_wf.run (Hub.init limits gated) ops in
+  match o with OHello _ (HResume _) | OJoin _ _ _ _ => False | _ => True end ->
+  In (ToConn c' (STransient t)) (snd (Hub.step h o)) ->
+  exists k r sid' s', room_of h k = Some r /\ In sid' (r_members r) /\ get_sess h sid' = Some s' /\
+                      s_room s' = Some k /\ is_virtual (s_kind s') = false /\ s_conn s' = Some c'.
+Proof. exact transient_written_to_members. Qed.
+(* a join writes no transient message but the initial data (that it goes to the joiner's connection is shown by the
+   model's definition and the differential run, not proved) *)
+Theorem C14H_join_writes_only_initial_partial : forall limits gated ops c rn rs rep c' t,
+  let h := Hub_wf.run (Hub.init limits gated) ops in
+  In (ToConn c' (STransient t)) (snd (Hub.step h (OJoin c rn rs rep))) -> exists d, t = TInit d.
+Proof. exact join_writes_only_initial. Qed.
+(* no publication queued on the bus ever carries a transient message: notices are never in flight *)
+Theorem C14H_bus_carries_no_transient : forall limits gated ops, BusNT (Hub_wf.run (Hub.init limits gated) ops).
+Proof. exact busnt_reachable. Qed.
 
 (* T2 (partial: one step of the replica induction).  The notice describes the change: after it room k is the room
    before with its data replaced by "data before, notice applied"; no other room, no connection and no session's
@@ -317,5 +338,8 @@ Print Assumptions C14H_listeners_are_members_partial.
 Print Assumptions C14H_recipient_is_member_partial.
 Print Assumptions C14H_every_connected_listener_is_told.
 Print Assumptions C14H_op_recipients_history_partial.
+Print Assumptions C14H_written_only_to_members.
+Print Assumptions C14H_join_writes_only_initial_partial.
+Print Assumptions C14H_bus_carries_no_transient.
 Print Assumptions C14H_replica_step_partial.
 Print Assumptions C14H_replica_after_notice_partial.
